@@ -70,6 +70,11 @@ def gather_states(tier, run, budget=None, extra_models=True):
             if m not in seen:
                 res.append((m, tr, 'cross-namespace-product', ('aliases', 'imports', 'ns', 'routes', 'unions', 'wrappers'), 3))
         run.bounds['cross_namespace_alias_product_models'] = len(profiles.cross_namespace_models())
+        ann = profiles.annotation_models()
+        for m, tr in ann:
+            if m not in seen:
+                res.append((m, tr, 'annotation-types', ('annotations', 'imports', 'ns', 'routes', 'unions', 'aliases'), 3))
+        run.bounds['annotation_type_models'] = len(ann)
     return res
 
 
